@@ -131,6 +131,30 @@ class SysHooks:
             return Sym(("listcomp", vkey(elt), vkey(it)))
         return None
 
+    def loop(self, sm, node, st):
+        """acc = []; for x in it: [t = g(x)]; acc.append(f(x, t))   is the comprehension [f(x, g(x)) for x in it]"""
+        if not (isinstance(node, ast.For) and isinstance(node.target, ast.Name) and not node.orelse and node.body):
+            return None
+        last = node.body[-1]
+        acc = None
+        if isinstance(last, ast.Expr) and isinstance(last.value, ast.Call) and isinstance(last.value.func, ast.Attribute) and last.value.func.attr == "append" \
+                and isinstance(last.value.func.value, ast.Name) and len(last.value.args) == 1:
+            acc, item = last.value.func.value.id, last.value.args[0]
+        elif isinstance(last, ast.AugAssign) and isinstance(last.op, ast.Add) and isinstance(last.target, ast.Name) and isinstance(last.value, ast.List) and len(last.value.elts) == 1:
+            acc, item = last.target.id, last.value.elts[0]
+        if acc is None or not isinstance(st.env.get(acc), ListV) or st.env[acc].items:
+            return None
+        if not all(isinstance(s, ast.Assign) and len(s.targets) == 1 and isinstance(s.targets[0], ast.Name) for s in node.body[:-1]):
+            return None
+        it = sm.expr(node.iter, st)
+        s2 = st.fork()
+        s2.env[node.target.id] = Sym(("bound",))
+        for s in node.body[:-1]:
+            s2.env[s.targets[0].id] = sm.expr(s.value, s2)
+        elt = sm.expr(item, s2)
+        st.env[acc] = Sym(("listcomp", vkey(elt), vkey(it)))
+        return [(st, None)]
+
     def call(self, sm, node, fname, args, kwargs, st):
         f = node.func
         # dispatch on a graph node payload: self._g[idx].method(...)
@@ -196,6 +220,10 @@ def _opq_key(k):
 # ------------------------------------------------------------------------------------------------ loop bodies
 def find_loop(fn, pred, what):
     hits = [n for n in ast.walk(fn) if isinstance(n, (ast.For, ast.While)) and pred(n)]
+    if len(hits) > 1:
+        # loops nested in another candidate are part of its body
+        inner = {id(y) for h in hits for y in ast.walk(h) if y is not h}
+        hits = [h for h in hits if id(h) not in inner]
     if len(hits) != 1:
         raise AnalysisError("%s: expected exactly one loop in %s, found %d" % (what, fn.name, len(hits)))
     return hits[0]
@@ -506,6 +534,14 @@ def solve_anchors(model, r):
         if isinstance(n, ast.Assign) and isinstance(n.targets[0], ast.Subscript) and isinstance(n.targets[0].value, ast.Name) \
                 and isinstance(n.targets[0].slice, ast.Constant) and isinstance(n.targets[0].slice.value, str) and isinstance(n.value, ast.Name):
             chan.setdefault(n.targets[0].slice.value, n.value.id)
+    # the first entries may be given as a dict literal: res = {"Component": names, "Type": typ}
+    resvars = {n.targets[0].value.id for n in ast.walk(phase_loop) if isinstance(n, ast.Assign) and isinstance(n.targets[0], ast.Subscript)
+               and isinstance(n.targets[0].value, ast.Name) and isinstance(n.targets[0].slice, ast.Constant) and n.targets[0].slice.value in chan}
+    for n in ast.walk(phase_loop):
+        if isinstance(n, ast.Assign) and len(n.targets) == 1 and isinstance(n.targets[0], ast.Name) and n.targets[0].id in resvars and isinstance(n.value, ast.Dict):
+            for k, v in zip(n.value.keys, n.value.values):
+                if isinstance(k, ast.Constant) and isinstance(k.value, str) and isinstance(v, ast.Name):
+                    chan.setdefault(k.value, v.id)
     return {"fn": fn, "row": row, "phase_loop": phase_loop, "V": vis[0], "I": vis[1], "ITERS": vis[2], "STATE": vis[3],
             "solver_call": solver_call, "chan": chan}
 
